@@ -90,7 +90,7 @@ func c18Template(r *R) string {
 	n := r.Range(2, 7)
 	dump := func(e string) string { return "\x01{{ " + e + "|json_encode }}\x02" }
 	for i := 0; i < n; i++ {
-		switch r.N(26) {
+		switch r.N(28) {
 		case 0, 1:
 			l, f := listAndFilter(r)
 			sb.WriteString("{{ " + l + "|" + f + "|json_encode }};")
@@ -180,6 +180,12 @@ func c18Template(r *R) string {
 				"{% set mg = merge(cfgd, cfgs) %}{{ mg.db.port }}{{ mg|keys|join(',') }}{{ cfgd.db.port }}",
 				"{% set ov = {'zz': 1} %}{{ merge(m1, {'inner': ov})|keys|length }}{{ merge(gm, m1)|length }}{{ m1.inner|keys|join(',') }}",
 			}) + ";")
+		case 26:
+			// a filter that RETURNS its hash-literal argument, then another filter call with a hash-literal argument
+			sb.WriteString("{% set a = zz9|default({'k': 10, 'c': 'red'}) %}" + dump("a") + "{% set b = " + pick(r, []string{"m1|merge({'q': 2})", "gm|merge({'w': 'x', 'v': 1})|keys", "zz8|default({'other': 1})"}) + " %}" + dump("a") + "\x03{{ a.k }}{{ a.c }};")
+		case 27:
+			// arbitrary-precision numbers (pointer types with in-place arithmetic)
+			sb.WriteString("{{ bigi|abs }}{{ bigr|abs }}{{ bigi }}{{ bigi|default(0) }}{{ bigi|json_encode }};")
 		default:
 			sb.WriteString("{% do " + "n1 + 1 %}{{ pp.Inner.Name }}{{ pp.Greeting }}{{ l2|first|json_encode }};")
 		}
@@ -216,6 +222,8 @@ func (propC18) Gen(seed uint64, ex map[string]bool) interface{} {
 		}()}},
 		KV{"cfgd", &Val{T: "map", M: []KV{{"db", &Val{T: "map", M: []KV{{"host", s("h")}, {"port", i(1)}}}}, {"name", s("defaults")}}}},
 		KV{"cfgs", &Val{T: "map", M: []KV{{"db", &Val{T: "map", M: []KV{{"port", i(2)}}}}, {"site", s("s")}}}},
+		KV{"bigi", &Val{T: "bigint", I: -250}},
+		KV{"bigr", &Val{T: "bigrat", I: -3}},
 		KV{"buf", &Val{T: "buffer", S: "buffered <text>"}},
 		KV{"lz", &Val{T: "lazy", S: "top"}},
 		KV{"html", &Val{T: "map", M: []KV{{"title", s("<b>T & t</b>")}, {"rows", &Val{T: "list", L: []*Val{{T: "list", L: []*Val{s("<td>"), s("a&b")}}, {T: "map", M: []KV{{"k", s("<i>\"q\"</i>")}}}}}}}}},
